@@ -174,12 +174,31 @@ def _denoted(packed, r):
   return np.concatenate([root.ravel(), ((v * ev) @ v.T).ravel(), [tail]])
 
 
+def _cut_is_resolved(stat, rank):
+  """False when the statistic's spectrum has no usable gap (< 1% of lambda_max) between the eigenvalues a packed
+  root keeps and those it averages. The kept eigenvectors are then an arbitrary basis inside a (near-)degenerate
+  eigenspace - e.g. the three eps-eigenvalues of a rank-4 7x7 statistic under a negative rank - and, because kept
+  and averaged directions get different values, so is the matrix the packed root denotes. Batches of different
+  size legitimately pick different vectors; the updates (compared separately) do not depend on the choice."""
+  s = np.asarray(stat, np.float64)
+  if s.ndim != 2 or s.shape[0] != s.shape[1] or not np.all(np.isfinite(s)):
+    return True
+  w = np.linalg.eigvalsh((s + s.T) / 2)
+  d, r = len(w), abs(rank)
+  if r >= d:
+    return True
+  lo, hi = (w[d - r - 1], w[d - r]) if rank > 0 else (w[r - 1], w[r])
+  return (hi - lo) > 1e-2 * max(float(w[-1]), 1e-300)
+
+
 def _cmp_tree(a, b, rtol, clause, what, packed_rank=0):
   import jax
   la = jax.tree_util.tree_flatten_with_path(a)[0]
   lb = jax.tree.leaves(b)
   require(len(la) == len(lb), clause, f"{what}: leaf count {len(la)} vs {len(lb)}")
   worst = 0.0
+  stats_by_path = {jax.tree_util.keystr(pth): np.asarray(v, np.float64) for (pth, v), _ in zip(la, lb)
+                   if packed_rank and ".statistics" in jax.tree_util.keystr(pth)}
   for (path, x), y in zip(la, lb):
     x, y = np.asarray(x), np.asarray(y)
     require(x.shape == y.shape, clause, f"{what} {jax.tree_util.keystr(path)}: shape {x.shape} vs {y.shape}")
@@ -189,8 +208,11 @@ def _cmp_tree(a, b, rtol, clause, what, packed_rank=0):
     if "training_metrics" in jax.tree_util.keystr(path):
       continue      # diagnostics (iteration counts) are not part of "updates and state" compared numerically
     if (packed_rank and "preconditioners" in jax.tree_util.keystr(path) and x.ndim == 2
-        and x.shape[1] == packed_rank + 2 < x.shape[0] and np.all(np.isfinite(xf)) and np.all(np.isfinite(yf))):
-      xf, yf = _denoted(xf, packed_rank), _denoted(yf, packed_rank)
+        and x.shape[1] == abs(packed_rank) + 2 < x.shape[0] and np.all(np.isfinite(xf)) and np.all(np.isfinite(yf))):
+      xf, yf = _denoted(xf, abs(packed_rank)), _denoted(yf, abs(packed_rank))
+      stat = stats_by_path.get(jax.tree_util.keystr(path).replace("preconditioners", "statistics"))
+      if stat is not None and not _cut_is_resolved(stat, packed_rank):
+        continue      # the kept eigenvectors (and with them the denoted matrix) are not determined by the statistic
     fin = np.isfinite(xf) & np.isfinite(yf)
     require(bool(np.all(np.isfinite(xf) == np.isfinite(yf))), clause,
             f"{what} {jax.tree_util.keystr(path)}: non-finite entries at different positions")
@@ -232,7 +254,7 @@ def check_pmap(case):
                                    f"D={D} N={N} (N mod D = {N % D}) mode {case['mode']} step {c} update"))
     worst = max(worst, _cmp_tree(pick0(s), pick0(base_s), rtol, "state-equals-single-device",
                                  f"D={D} N={N} (N mod D = {N % D}) mode {case['mode']} final state",
-                                 packed_rank=abs(int(case["o"].get("compression_rank", 0)))))
+                                 packed_rank=int(case["o"].get("compression_rank", 0))))
     if N % D != 0:
       nontrivial = True
   return Result(nontrivial, [f"mode={case['mode']}", f"N={min(N, 30) // 5 * 5}+"] + [f"NmodD={N % D}" for D in case["ds"]],
@@ -289,6 +311,12 @@ def check_sharded(case):
       for nm, a, b in (("statistics", gd.statistics, gb.statistics), ("preconditioners", gd.preconditioners, gb.preconditioners)):
         a, b = np.asarray(a, np.float64)[:N], np.asarray(b, np.float64)[:N]
         if nm == "preconditioners" and rk and a.ndim == 3 and a.shape[2] == rk + 2 and np.all(np.isfinite(a)) and np.all(np.isfinite(b)):
+          gstat = np.asarray(gb.statistics, np.float64)[:N]
+          srk = int(o.get("compression_rank", 0))
+          for i in range(a.shape[0]):
+            sz = slot_size.get(i, 0)
+            if sz > rk + 2 and not _cut_is_resolved(gstat[i][:sz, :sz], srk):
+              a[i] = b[i]       # kept eigenvectors not determined by the statistic: slot not compared
           # packed slots (statistic larger than rank + 2) are compared through the matrices they denote
           a = np.stack([_denoted(a[i], rk) if slot_size.get(i, 0) > rk + 2 else np.resize(a[i].ravel(), 2 * a.shape[1] ** 2 + 1) for i in range(a.shape[0])])
           b = np.stack([_denoted(b[i], rk) if slot_size.get(i, 0) > rk + 2 else np.resize(b[i].ravel(), 2 * b.shape[1] ** 2 + 1) for i in range(b.shape[0])])
